@@ -139,7 +139,7 @@ class CallbackView(FuncInfo):
       # stand for the bound expressions, the function sits inside `outer`
       node = _copy.deepcopy(base.node)
       keep_first = 1 if (base.cls is not None and skip >= 1) else 0
-      own = set(all_params[skip:]) | {
+      own = (set(all_params[skip:]) - set(bound)) | {
           n.id for n in ast.walk(node) if isinstance(n, ast.Name) and
           isinstance(n.ctx, ast.Store)}
       safe = {k: v for k, v in bound.items() if not any(
